@@ -363,7 +363,7 @@ pub fn finish(ctx: &RunCtx, mut rep: Report, fin: Finish) -> i32 {
             let path = format!("{}/replays/{}-{}.json", verif_dir(), ctx.property, digest);
             let body = json!({"property": ctx.property, "finding_key": key, "detail": v.detail, "occurrences": count, "log_level": "off", "replay": v.replay});
             let _ = std::fs::write(&path, serde_json::to_string_pretty(&body).unwrap());
-            println!("  violation key={} detail={} (only the pass with logging OFF shows it; replay with VERIF_LOG=off)", key, v.detail);
+            println!("  violation key={} detail={} (seen in the pass with logging OFF)", key, v.detail);
             println!("VIOLATION property={} replay={}", ctx.property, path);
         }
         let evp = format!("{}/evidence/{}.json", verif_dir(), ctx.property);
